@@ -492,6 +492,7 @@ def cli_part(chk, scratch, n_pairs):
         # (c) real intermediate files: re-encoding fix-point + loader alignment
         db = gffutils.FeatureDB(os.path.join(d, "o1", "a.db"))
         fa = Fasta(os.path.join(d, "g.fa"))
+        saved_alignments = {}          # read id -> [(chr, start, end)] over the per-chromosome files
         for chrom in fa.keys():
             path = os.path.join(d, "o1", "SMP", "aux", "SMP.save_" + chrom)
             if not os.path.exists(path):
@@ -512,6 +513,7 @@ def cli_part(chk, scratch, n_pairs):
                 ser.write_short_int(aio.TmpFileAssignmentPrinter.GENE_INFO if kind_is_gene else aio.TmpFileAssignmentPrinter.READ_ASSIGNMENT, out)
                 o1_.serialize(out)
                 if not kind_is_gene:
+                    saved_alignments.setdefault(o2_.read_id, []).append((o2_.chr_id, o2_.start, o2_.end))
                     ref = ia.BasicReadAssignment(o1_)
                     if (ref.read_id, ref.chr_id, ref.start, ref.end, ref.assignment_type, ref.gene_assignment_type, set(ref.isoforms), set(ref.genes),
                         ref.multimapper, ref.polyA_found) != \
@@ -524,6 +526,35 @@ def cli_part(chk, scratch, n_pairs):
             if out.getvalue() != raw:
                 chk.violation("realfile:reencoding-differs", "deserialize+serialize of %s does not reproduce its bytes (%d vs %d bytes)" %
                               (os.path.basename(path), len(out.getvalue()), len(raw)), None)
+        # (c) the files of resolved multi-mapped reads: the reader of chromosome X opens only the file of X and keeps records of X, so
+        # every record must sit in the file of its own chromosome, and every alignment of a read saved more than once must have one
+        in_streams = {}
+        for chrom in fa.keys():
+            path = os.path.join(d, "o1", "SMP", "aux", "SMP.save_multimappers_" + chrom)
+            if not os.path.exists(path):
+                continue
+            with open(path, "rb") as f:
+                try:
+                    n = ser.read_int(f)
+                    while n != ser.TERMINATION_INT:
+                        for _ in range(n):
+                            a = ia.BasicReadAssignment.deserialize(f)
+                            chk.note()
+                            chk.count("multimapper_records_read")
+                            in_streams.setdefault(a.read_id, []).append((a.chr_id, a.start, a.end))
+                            if a.chr_id != chrom:
+                                chk.violation("multimapper-stream:record-in-file-of-another-chromosome",
+                                              "record of read %s on %s:%d-%d (%s) is stored in %s, which only the reader of %s opens" %
+                                              (a.read_id, a.chr_id, a.start, a.end, a.assignment_type.name, os.path.basename(path), chrom), {"opts": opts})
+                        n = ser.read_int(f)
+                    if f.read(1):
+                        chk.violation("multimapper-stream:bytes-after-terminator", "%s has bytes after its terminator" % os.path.basename(path), {"opts": opts})
+                except Exception as e:
+                    chk.violation("multimapper-stream:unreadable", "%s: %s: %s" % (os.path.basename(path), type(e).__name__, e), {"opts": opts})
+        for rid, als in saved_alignments.items():
+            if len(als) > 1 and sorted(als) != sorted(in_streams.get(rid, [])):
+                chk.violation("multimapper-stream:alignments-not-conserved", "read %s has saved alignments %s, the multimapper files hold %s" %
+                              (rid, sorted(als)[:4], sorted(in_streams.get(rid, []))[:4]), {"opts": opts})
         shutil.rmtree(d, ignore_errors=True)
 
 
@@ -534,7 +565,7 @@ def run(chk, scratch):
     n_pairs = 24 if thorough else 3
     chk.rule = ("generated values over the format's representable domain (uints < 2^32-1 incl. sentinels, signed < 2^31, None ids, empty lists, "
                 "all enum members, strings up to 65534 chars incl. non-ASCII group names, penalties multiples of 2^-20); random streams of gene-info/"
-                "assignment records through both real loaders; real --keep_tmp files re-encoded; --read_assignments reuse pairs (polyA-poor and polyA-rich data, multi-mapped reads, --high_memory saving runs; assignment statistics and every output compared). "
+                "assignment records through both real loaders; real --keep_tmp files re-encoded, the files of resolved multi-mapped reads read back (every record in the file of its own chromosome, every alignment of a read saved more than once present); --read_assignments reuse pairs (polyA-poor and polyA-rich data, multi-mapped reads, --high_memory saving runs; assignment statistics and every output compared). "
                 "non-trivial = distinct (field, value class) combinations seen + reuse option sets")
     jobs = []
     for i in range(16):
@@ -564,6 +595,7 @@ def run(chk, scratch):
                        "65535-char strings collide with the None marker by design and are excluded",
                        "read ids / chromosome names ASCII (BAM specification); group names may be non-ASCII"]
     chk.inconclusive_if(fields == 0, "no object round trip executed")
+    chk.inconclusive_if(chk.extra.get("multimapper_records_read", 0) == 0, "no record of a resolved multi-mapped read seen in the saved files")
     chk.inconclusive_if(records == 0, "no stream record read")
     chk.inconclusive_if(chk.extra.get("reuse_pairs_compared", 0) == 0, "no reuse pair compared")
     chk.min_nontrivial = 20
